@@ -10,6 +10,8 @@ rsync -a --delete --exclude target /verif/harness/ $S/harness/
 sed -i "s#path = \"/repo\"#path = \"$S/repo\"#" $S/harness/Cargo.toml
 git -C $S/repo apply $patch || { echo "patch does not apply"; exit 2; }
 for c in "$@"; do
-  VERIF_HARNESS_DIR=$S/harness VERIF_EVIDENCE_DIR=$S/evidence /verif/check $c --tier quick 2>&1 | grep -E "key=|VIOLATION|MACHINERY|\[quick\]" | cut -c1-260 | head -6
+  out=$(VERIF_HARNESS_DIR=$S/harness VERIF_EVIDENCE_DIR=$S/evidence /verif/check $c --tier quick 2>&1)
+  echo "$out" | grep -E "MACHINERY|\[quick\]" | cut -c1-260
+  echo "$out" | grep -E "key=|VIOLATION" | cut -c1-260 | head -4
 done
 git -C $S/repo checkout -q -- .
